@@ -339,6 +339,18 @@ func (s *Store) Instantiate(
 	sys *internalsys.Context,
 	typeIDs []FunctionTypeID,
 ) (*ModuleInstance, error) {
+	// Fail early when the name is taken: instantiation has side effects on the modules it imports from
+	// (segments applied to shared memories and tables, the start function), which must not happen for a
+	// module that cannot be registered. The name is checked again when registering.
+	if name != "" {
+		s.mux.RLock()
+		_, taken := s.nameToModule[name]
+		s.mux.RUnlock()
+		if taken {
+			return nil, fmt.Errorf("module[%s] has already been instantiated", name)
+		}
+	}
+
 	// Instantiate the module and add it to the store so that other modules can import it.
 	m, err := s.instantiate(ctx, module, name, sys, typeIDs)
 	if err != nil {
